@@ -143,6 +143,25 @@ def ddmin(ops, test, max_tests=400):
 # ---------------------------------------------------------------------------
 # Fan-out
 
+def _worker_regression(args):
+    engine_name, prop, path, timeout_s = args
+    faulthandler.enable()
+    faulthandler.dump_traceback_later(timeout_s, exit=True)
+    try:
+        from dsim import engines
+        engine = engines.get(engine_name)
+        with open(path, encoding="utf-8") as f:
+            doc = json.load(f)
+        try:
+            res = engine.replay(doc["trace"], prop)
+        except Exception:
+            return path, None, traceback.format_exc()
+        hit = [v for v in res.get("violations", []) if v["property"] == prop]
+        return path, (hit[0] if hit else None), None
+    finally:
+        faulthandler.cancel_dump_traceback_later()
+
+
 def _worker_chunk(args):
     engine_name, prop, verif_seed, indices, tier, want_samples, timeout_s = args
     faulthandler.enable()
@@ -282,6 +301,26 @@ def minimise(engine, prop, trace, violation):
 REGRESSION_DIR = os.path.join(VERIF_DIR, "regressions")
 
 
+def run_regressions_parallel(engine_name, prop, workers, timeout_s=600):
+    hits, errors = [], []
+    if not os.path.isdir(REGRESSION_DIR):
+        return hits, errors
+    paths = [os.path.join(REGRESSION_DIR, n) for n in sorted(os.listdir(REGRESSION_DIR))
+             if n.startswith(prop + "-") and n.endswith(".json")]
+    if not paths:
+        return hits, errors
+    ctx = multiprocessing.get_context("fork")
+    with ProcessPoolExecutor(max_workers=min(workers, len(paths)), mp_context=ctx) as pool:
+        for path, v, err in pool.map(_worker_regression,
+                                     [(engine_name, prop, p, timeout_s) for p in paths]):
+            if err:
+                errors.append(f"regression {os.path.basename(path)}: {err}")
+            elif v:
+                hits.append((path, v))
+    print(f"[dsim] {len(paths)} regression trace(s) replayed, {len(hits)} firing", flush=True)
+    return hits, errors
+
+
 def run_regressions(engine, prop):
     """
     Replay the minimised traces of defects that were repaired with a fix:
@@ -324,10 +363,11 @@ def run_check(prop, engine_name, tier, nruns, extra_evidence=None):
           f"runs<={nruns} workers={workers} budget_s={budget_s}", flush=True)
     if hasattr(engine, "prepare"):
         engine.prepare(prop, tier)
-    regression_hits = run_regressions(engine, prop)
+    regression_hits, reg_errors = run_regressions_parallel(engine_name, prop, workers)
     results, harness = fan_out(engine_name, prop, verif_seed, nruns, tier, workers, budget_s,
                                chunk=getattr(engine, "CHUNK", 20),
                                task_timeout_s=getattr(engine, "TASK_TIMEOUT_S", 600))
+    harness = reg_errors + harness
     known, _fixed = load_known_findings()
     target = []
     other = {}
